@@ -241,7 +241,7 @@ for _s1 in range(21):
 
 _T = '''
 @obligation(pre="{lo} <= s1 <= {hi} and 0 <= k1 <= 3 and 0 <= s2 <= 20 and 0 <= k2 <= 3 and (s2 == 0 or k2 == 0 or s2 in (1, 4, 5, 9, 14, 16, 17, 20)) and (k1 == 0 or s1 in (1, 4, 5, 9, 14, 16, 17, 20))",
-            witnesses={wit}, timeout=300)
+            witnesses={wit}, timeout=480)
 def body_render_{lo}(s1: int, k1: int, s2: int, k2: int) -> int:
     """rendering the error of a conversion with one or two injected faults (first fault site {lo}..{hi}) never raises, is stable, and names every failing path component, expectation, key and cause"""
     return check_render(s1, k1, s2, k2)
